@@ -691,6 +691,9 @@ func (st *tunnelClientStream) SendMsg(m interface{}) error {
 	st.writeMu.Lock()
 	defer st.writeMu.Unlock()
 
+	if st.halfClosed {
+		return status.Errorf(codes.Internal, "SendMsg called after CloseSend")
+	}
 	if !st.isClientStream && st.numSent == 1 {
 		return status.Errorf(codes.Internal, "Already sent response for non-server-stream method %s", st.method)
 	}
